@@ -392,7 +392,7 @@ class DeserializationMethodVisitor(
 
             value_map = dict(zip(literal_values(values), values))
             return LiteralMethod(
-                value_map,
+                {(key.__class__, key): value for key, value in value_map.items()},
                 preformat_error(settings.errors.one_of, list(value_map)),
                 self.coercer,
                 tuple(set(map(type, value_map))),
